@@ -106,6 +106,8 @@ pub struct ArenaRt {
     /// children adopted while marking was in progress, in the running cycle / the one before
     pub adopted_cur: BTreeSet<Id>,
     pub adopted_prev: BTreeSet<Id>,
+    /// layout-family leaves with an exotic layout that have survived a full cycle (C17 evidence)
+    pub exotic_survivors: BTreeSet<Id>,
 }
 
 impl ArenaRt {
@@ -137,6 +139,7 @@ impl Default for ArenaRt {
             up_stored: BTreeSet::new(),
             adopted_cur: BTreeSet::new(),
             adopted_prev: BTreeSet::new(),
+            exotic_survivors: BTreeSet::new(),
         }
     }
 }
@@ -448,7 +451,7 @@ impl World {
         for o in &snap.objects {
             let id = self.addr2id.get(&o.addr).copied();
             let (kind, reachable) = match id.and_then(|i| self.sh.objs.get(&i).map(|ob| (i, ob))) {
-                Some((i, ob)) => (ob.kind as u64, reach.contains(&i)),
+                Some((i, ob)) => (crate::rng::fnv(format!("{:?}", ob.kind).as_bytes()) % 1024, reach.contains(&i)),
                 None => (99, false),
             };
             h = mix(h, o.color as u64 | (o.live as u64) << 2 | (o.needs_trace as u64) << 3 | (o.pending_sweep as u64) << 4 | (reachable as u64) << 5 | kind << 6);
@@ -546,6 +549,12 @@ impl World {
                         }
                         seam::CTX_ARENA_DROP => {}
                         _ => self.violate("C03.free-outside", format!("Gc block of {oid} released outside any collection method or arena drop")),
+                    }
+                    if matches!(o.kind, Kind::Built { .. }) && e.ctx == seam::CTX_COLLECT {
+                        self.stats.flag("C18.completed-and-collected");
+                    }
+                    if self.rt.get(o.arena as usize).is_some_and(|r| r.exotic_survivors.contains(&oid)) {
+                        self.stats.flag("C17.exotic-survived-and-released");
                     }
                     let om = self.sh.objs.get_mut(&oid).unwrap();
                     om.released = true;
